@@ -218,6 +218,27 @@ def run(chk):
                 except Undecided as e:
                     v, d = UNDECIDED, e.cause
                 chk.add("C02.O.ord", key, v, d, where=where_of(ob[0]))
+            if kind == "dyn":
+                for (n1, n2) in ((0, 1), (2, 3), (5, 6), (6, 7), (3, 8)):
+                    key = "<%s as Ord>::cmp n=%d vs %d is never Equal" % (K.adt, n1, n2)
+                    try:
+                        it = env.interp()
+                        st = State()
+                        pa = K.place(st, K.mk(st, n1, sym_words(n1, "a")))
+                        pb = K.place(st, K.mk(st, n2, sym_words(n2, "b")))
+                        outs = it.call_body(ob[0], [pa, pb], st, {})
+                        o, v, d = single_return(outs)
+                        if o is not None:
+                            r = o.value
+                            if isinstance(r, Agg) and r.key == "std::cmp::Ordering":
+                                v, d = (PROVED, "") if r.variant != 1 else (REFUTED, "tables with %d and %d variables compare Equal" % (n1, n2))
+                            elif isinstance(r, Opaque) and r.kind == "lexcmp":
+                                v, d = REFUTED, "tables with %d and %d variables are compared by their blocks only: equal blocks compare Equal although the functions differ (Ord disagrees with Eq)" % (n1, n2)
+                            else:
+                                v, d = UNDECIDED, "ordering summary %r" % (r,)
+                    except Undecided as e:
+                        v, d = UNDECIDED, e.cause
+                    chk.add("C02.O.ord", key, v, d, where=where_of(ob[0]))
     # ------------------------------------------------------------------ C02.I
     producers = 0
     for kind in ("dyn", "static"):
